@@ -205,8 +205,16 @@ def sess_c03(seed, profile='main', dots=False):
     return finish_session(lines, evs, text, seed, features(lines))
 
 
-def sess_c01(seed, profile='main'):
-    r, lines, types = make_doc(seed, profile)
+def sess_c01(seed, profile='main', ext=False):
+    if ext:
+        # documents of the EXTENDED row machine: add-spine operators with the line that names the new spine, several sections
+        from . import extras
+        r = random.Random(seed)
+        lines = extras.ext_document(r)
+        while lines[-1]['ev'] == 'unsupported':
+            lines = extras.ext_document(r)
+    else:
+        r, lines, types = make_doc(seed, profile)
     evs, doc, text = session.record_import(lines)
     if doc is not None:
         evs.append(session.record_call(doc, {'op': 'dumps', 'args': session.dumps_args(), 'exact': True}))
